@@ -406,7 +406,14 @@ def check_C06(tier, rng, rep):
     """results are canonical, well-formed; singletons"""
     quick = tier == "quick"
     for un in (["U2cross", "U3hole"] if quick else U2 + U3):
-        rep.add_tlc("PlaneThm/" + un, models.plane_thm(un, ["ThmKindShape", "ThmComplRow", "ThmSingletonLaws", "ThmLoops", "ThmLoopCorners"]))
+        rep.add_tlc("PlaneThm/" + un, models.plane_thm(un, ["ThmKindShape", "ThmComplRow", "ThmSingletonLaws", "ThmLoops", "ThmLoopCorners", "ThmGrouping"]))
+    # the code-shaped grouping of curves into components and holes (DivideConnecteds) is right on
+    # every region; comparing only with the biggest curve of a group is refuted at nesting depth 4
+    rep.add_tlc("PlaneThm/U4nest", models.plane_thm("U4nest", ["ThmGrouping", "ThmKindShape", "ThmLoops"]))
+    rw = models.plane_thm("U4nest", ["RefutedGroupingWeak"])
+    rep.cov["tlc_runs"].append({"model": "PlaneThm/U4nest weak grouping (expected counterexample)", "violated": rw.violated, "distinct_states": rw.distinct})
+    if rw.violated != "RefutedGroupingWeak":
+        rep.machinery.append("the weak grouping rule should be refuted on U4nest but TLC says %r" % rw.violated)
     un = "U2nest" if quick else "U2cross"
     rep.add_tlc("ShapeSys/%s/r2" % un, models.shapesys_check(un, regs=2, maxobj=4, props=["FreshResults"], invs=["TypeOK", "Canonical"], acts=("make", "bin", "inv")))
     o = {"check_c10": False}
